@@ -398,7 +398,7 @@ func checkC12(c *Ctx) {
 			}
 		}
 	}
-	c.Rule = fmt.Sprintf("every decode path (%d byte prefixes incl. all 65536 (d,op) pairs after DDCB/FDCB) x %d operand byte patterns x %d configurations (memory kind {64K array, DumbMemory len 0/1/256/32768, MapMemory} / IO kind {nil, DumbIO len 0/1/128/256} / IM {0,1,2,-1,3,MaxInt} / PC {0000,0100,FFFC..FFFF} / SP / pending request {none, NMI, unknown types, IM1, IM2, mode-0 data of 1..4 bytes and 70000 bytes} one at a time around a default, thorough: pairs); all 256 single-byte opcodes and multi-byte forms as mode-0 data x IM x IFF1 x PC x memory kind; Run vs Step-driven twin on every decode path as a one-instruction program in HALT-filled memory. Oracle: no panic, deterministic watchdog (4096 accesses per Step), unsupported opcodes only consumed. Non-trivial = the configuration deviates from the default in memory/IO/IM/request or the path is an unsupported or prefix-only encoding (counted).", len(paths), len(operandPats), len(cfgs))
+	c.Rule = fmt.Sprintf("every decode path (%d byte prefixes incl. all 65536 (d,op) pairs after DDCB/FDCB) x %d operand byte patterns x %d configurations (memory kind {64K array, DumbMemory len 0/1/256/32768, MapMemory} / IO kind {nil, DumbIO len 0/1/128/256} / IM {0,1,2,-1,3,MaxInt} / PC {0000,0100,FFFC..FFFF} / SP / pending request {none, NMI, unknown types, IM1, IM2, mode-0 data of 1..4 bytes and 70000 bytes} one at a time around a default, thorough: pairs); all 256 single-byte opcodes and multi-byte forms as mode-0 data x IM x IFF1 x PC x memory kind; mode-0 data of 5/8/300 bytes starting with each of the 256 opcodes with every pointer register aimed into and around [PC, PC+len); Run on a halting program with every request kind pending x IM x IFF1; Run vs Step-driven twin on every decode path as a one-instruction program in HALT-filled memory. Oracle: no panic, deterministic watchdog (4096 accesses per Step), unsupported opcodes only consumed. Non-trivial = the configuration deviates from the default in memory/IO/IM/request or the path is an unsupported or prefix-only encoding (counted).", len(paths), len(operandPats), len(cfgs))
 	c.Bound = "decode tree x configuration lattice " + c.Tier
 	var evals, nontriv [16 * 8]int64
 	var capped int32
@@ -490,6 +490,76 @@ func checkC12(c *Ctx) {
 							}
 						}
 					}
+				}
+			}
+		}
+	}
+	// mode-0 data longer than any instruction, the supplied instruction reading / writing / jumping through
+	// pointers into and around the window [PC, PC+len(data))
+	for b0 := 0; b0 < 256; b0++ {
+		for _, dl := range []int{5, 8, 300} {
+			for _, pc := range []uint16{0x0100, 0xFFFD} {
+				for _, k := range []int{0, 1, 3, 4, 5, dl - 1, dl, -1} {
+					for _, mk := range []int{0, 5} {
+						data := make([]uint8, dl)
+						data[0] = uint8(b0)
+						for i := 1; i < dl; i++ {
+							data[i] = uint8(0x40 + i) // LD r,r' filler: harmless if executed
+						}
+						ptr := pc + uint16(k)
+						cm := &countMem{m: c12BuildMem(mk, 0x00, pc, []uint8{0x3C}, sc0), limit: 4096}
+						cpu := z80.CPU{Memory: cm, IO: make(z80.DumbIO, 3)}
+						cpu.PC, cpu.IM, cpu.IFF1 = pc, 0, true
+						cpu.SP, cpu.IX, cpu.IY = ptr, ptr, ptr
+						cpu.HL.SetU16(ptr)
+						cpu.BC.SetU16(ptr)
+						cpu.DE.SetU16(ptr)
+						cpu.Interrupt = &z80.Interrupt{Type: z80.IMType, Data: data}
+						var pan interface{}
+						func() {
+							defer func() { pan = recover() }()
+							cpu.Step()
+							cpu.Step()
+						}()
+						n++
+						sc0.release(cm, mk, 0x00, pc, 1)
+						if pan != nil {
+							cfg := map[string]interface{}{"int_data_first_byte": b0, "int_data_len": dl, "pc": pc, "pointer_registers": ptr, "mem": mk}
+							c.Report(fmt.Sprintf("c12/im0long:%02X", b0), n, "", cfg, []string{fmt.Sprintf("Step with a %d-byte mode-0 request starting with %02X at PC=%04X, SP=HL=BC=DE=IX=IY=%04X, memory kind %d: %v", dl, b0, pc, ptr, mk, pan)})
+						}
+					}
+				}
+			}
+		}
+	}
+	// Run with a request that can never be accepted: the program's HALT must still end the run
+	for ri := range reqs {
+		for _, im := range c12IMs {
+			for _, iff1 := range []bool{false, true} {
+				cm := &countMem{m: c12BuildMem(0, 0x76, 0x0100, []uint8{0x00, 0x3C, 0x76}, sc0), limit: 200000}
+				cpu := z80.CPU{Memory: cm, IO: make(z80.DumbIO, 256)}
+				cpu.PC, cpu.SP, cpu.IM, cpu.IFF1 = 0x0100, 0x8000, im, iff1
+				if r := reqs[ri]; r != nil {
+					cp := *r
+					cpu.Interrupt = &cp
+				}
+				var pan interface{}
+				var err error
+				func() {
+					defer func() { pan = recover() }()
+					err = cpu.Run(bgCtx)
+				}()
+				n++
+				sc0.release(cm, 0, 0x76, 0x0100, 3)
+				if pan != nil || err != nil || !cpu.HALT {
+					what := fmt.Sprintf("returned %v, HALT=%v", err, cpu.HALT)
+					if wp, ok := pan.(watchdogPanic); ok {
+						what = fmt.Sprintf("did not return (deterministic watchdog after %d memory accesses)", wp.n)
+					} else if pan != nil {
+						what = fmt.Sprintf("panicked: %v", pan)
+					}
+					cfg := map[string]interface{}{"request": ri, "im": im, "iff1": iff1}
+					c.Report(fmt.Sprintf("c12/run-pending:%d", ri), n, "", cfg, []string{fmt.Sprintf("Run on NOP;INC A;HALT (HALT-filled memory) with request #%d pending, IM=%d, IFF1=%v: %s", ri, im, iff1, what)})
 				}
 			}
 		}
